@@ -8,6 +8,7 @@ from c02 import info_for
 from common import Case, b, nat
 from pm import err_class
 from prosemirror.model import Fragment, Mark, Node
+from steps import rand_mark as S_rand_mark
 
 ID = "C07"
 CORR_MODULE = "Corr.C07"
@@ -131,6 +132,38 @@ def generate(rng: random.Random, tier: str):
                                desc={"op": "valid_content", "family": fam, "type": ty.name,
                                      "content": [c.to_json() for c in n.content.content], "obs": [vc, cc]},
                                schema=S, kind=f"valid_content/{vc}")
+            # mark admissibility of the inserted sub-range only: parents that restrict marks, replacement
+            # fragments mixing allowed and disallowed marks, sub-ranges that do not start at 0
+            restricted = [n for n in all_nodes(d) if n.type.mark_set is not None and not n.is_leaf][: (3 if quick else 12)]
+            for n in restricted:
+                kids = []
+                inline = n.inline_content
+                for _ in range(rng.randint(2, 5)):
+                    if inline:
+                        ms = g.marks_for(sc.nodes["paragraph"]) if rng.random() < 0.6 else Mark.none
+                        kids.append(sc.text(rng.choice(["u", "vw"]), ms))
+                    else:
+                        cands = [x for x in pool if x.is_block]
+                        if not cands:
+                            break
+                        x = rng.choice(cands)
+                        if sc.marks and rng.random() < 0.5:
+                            x = x.mark(g.marks_for(sc.nodes["doc"]) or [S_rand_mark(rng, sc)])
+                        kids.append(x)
+                if not kids:
+                    continue
+                fr = Fragment(kids)      # raw: keep the pieces apart so that start/end select individual children
+                cnt = n.child_count
+                for _ in range(3 if quick else 8):
+                    f = rng.randint(0, cnt)
+                    t = rng.randint(f, cnt)
+                    st = rng.randint(0, len(kids))
+                    en = rng.randint(st, len(kids))
+                    term, ok = res_bool(lambda: n.can_replace(f, t, fr, st, en))
+                    yield Case(coq=f"CCanReplace @S@ {info.node(n)} {nat(f)} {nat(t)} {info.frag(fr)} {nat(st)} {nat(en)} {term}",
+                               desc={"op": "can_replace", "family": fam, "node": n.to_json(), "from": f, "to": t,
+                                     "repl": [c.to_json() for c in kids], "start": st, "end": en, "obs": term},
+                               schema=S, kind=f"can_replace-marks/{term[:8]}")
             # whole-document check on valid and corrupted trees
             for k in range(3 if quick else 10):
                 j = d.to_json() if k == 0 else corrupt(rng, sc, d.to_json())
